@@ -241,6 +241,29 @@ def consoleArgs (c : Chars) (a : Args) (urlparsed : Option (List Char × List Ch
                  minBells := min (Generated.minBellsInDataset : Int) a.maxBells,
                  name := a.name }
 
+/-! ### `server_main` -/
+
+/-- What `main(["server-mode", room, "--port", p, "--id", i])` constructs: nothing is chosen on the command line
+but the port and the instance id; the rest are the constants of `server_main` (generated). -/
+structure ServerCfg where
+  /-- `"http://127.0.0.1:" + str(args.port)` (`str(None)` when no port is given) -/
+  url : List Char
+  cfg : Cfg
+  initialInertia : Nat
+  serverId : Option Int
+
+def serverMain (port id : Option Int) : ServerCfg :=
+  { url := "http://127.0.0.1:".toList ++ (match port with | some p => (toString p).toList | none => "None".toList),
+    cfg := { source := .gen mkPlaceholder,
+             udi := Generated.serverUdi, sar := Generated.serverSar, callComps := Generated.serverCallComps,
+             useWait := Generated.serverUseWait, pealSpeed := Generated.serverPealSpeed,
+             inertia := Generated.serverInertiaBits, gap := Generated.serverGapBits,
+             maxBells := Generated.serverMaxBells,
+             minBells := min (Generated.minBellsInDataset : Int) Generated.serverMaxBells,
+             name := some Generated.serverName.toList },
+    initialInertia := Generated.serverInitialInertiaBits,
+    serverId := id }
+
 /-- The whole command line. -/
 def consoleMain (c : Chars) (os : List Opt) (urlparsed : Option (List Char × List Char)) : Out :=
   if !groupOk os then .usage else consoleArgs c (parseOpts os) urlparsed
